@@ -7,7 +7,9 @@
 //   connect <i> | rmestab <i> | write <i> <n> | read <i> | suspend <i> | resume <i> | interrupt | adv <d>
 //   on <ent> <act|read|write|closed|abolished|accepted|connected> <new> <acc> [/ <action>]…
 //        queue the behaviour of the next such callback of <ent> (t<i> c<i> l<i> e<i>)
-//   run <item>…            Server::run(); item = <dt>[:<ent>=<bits>,…]  bits: 1 in 2 out 4 rdhup 8 hup 16 err
+//   run <item>…            Server::run(); item = <dt>[+][!][:<ent>=<bits>,…]  bits: 1 in 2 out 4 rdhup 8 hup 16 err
+//                          `+` the item continues the previous one (a crowd of ready sockets cut into pieces of 63: an epoll_wait that
+//                          asks for more than 64 events gets them in one call); `!` epoll_wait fails with EINTR after dt
 //   sendq (w|e|<k>)… | recvq (w|e|z|<k>)… | acceptq (0|1)… | connq <err>…
 //   opts <keepalive> <nodelay> <sndbuf> <rcvbuf> <reuse>    the five socket-option setters of Server (the options are applied to
 //                          the sockets of later pair/accept/connect/listen operations; they do not change what the loop does)
@@ -19,7 +21,10 @@
 //        2<us>     two threads interrupt a waiting loop, the second <us> later
 //        <s>: n no stall, w the interrupter sleeps 3 ms right after its write to the event descriptor, p right before it
 //        hf ho Hf  connect("verif.test", …): the (interposed) lookup fails / succeeds, then interrupt(), then run() (H: both while the loop waits)
+//        ho        … a successful lookup leaves the establisher registered for its connect (or abolished), no onConnected yet
 //        x         an establisher removed while its lookup is pending gets no callback when the lookup completes
+//        g<us>     a signal (SIGUSR1, empty handler) hits the loop thread while it waits: epoll_wait fails with EINTR, run() must
+//                  not return; the interrupt() <us> later ends it
 //        c         clear(): pools empty, no callback of a cleared timer, the server is usable afterwards
 //                          prints  mt <k> <round> ok  or  mt <k> <round> FAIL <reason>
 //
@@ -53,7 +58,7 @@ static void emitf(const char* fmt, ...) __attribute__((format(printf, 1, 2)));
 #include <stdarg.h>
 static void emitf(const char* fmt, ...)
 {
-  char buf[512];
+  char buf[4096];
   va_list ap; va_start(ap, fmt); vsnprintf(buf, sizeof(buf), fmt, ap); va_end(ap);
   emit(buf);
 }
@@ -98,6 +103,7 @@ static void client_cb(long id, const char* name, int skind)
 {
   if(mt_mode) { __sync_add_and_fetch(&mt_other, 1); return; }
   emitf("cb c%ld %s @%lld", id, name, slk_clock());
+  slk_touch('c', id);          // the readiness the simulated epoll reported for this client has been acted upon
   run_entry(find_entry('c', id, skind));
 }
 void TimerCb::onActivated()
@@ -281,6 +287,7 @@ static void exec_action(char* line)
 
 // ---- real-kernel rounds with real threads -------------------------------------------------------------------
 #include <pthread.h>
+#include <signal.h>
 #include <semaphore.h>
 #include <unistd.h>
 struct Worker { pthread_t th; sem_t go, done; volatile int quit, stall, spin_us; };
@@ -372,6 +379,19 @@ static const char* mt_round(const char* tok, long)
     if(!wait_done(wa, 3000) || !wait_done(wb, 3000)) return "interrupt() did not return";
     const char* r2 = finish_round(true); if(!r) r = r2;
     if(server->_p->_interrupted) { go(wl, 0, 0); if(!wait_done(wl, 3000) && !r) r = "a pending interrupt did not end the next run()"; }
+  } else if(kind == 'g') {
+    us = atoi(tok + 1);
+    go(wl, 0, 0);
+    if(!wait_in_epoll(w0)) r = "the loop thread did not reach epoll_wait";
+    usleep(300);
+    long w1 = slk_wait_entries();
+    pthread_kill(wl.th, SIGUSR1);                 // handled signal: epoll_wait returns -1/EINTR (it is never restarted)
+    for(int k2 = 0; k2 < 400 && slk_wait_entries() == w1; ++k2) usleep(50);   // the loop has gone round and waits again
+    usleep((useconds_t)us);
+    int sv; sem_getvalue(&wl.done, &sv);
+    if(sv > 0 && !r) r = "run() returned after a signal although interrupt() had not been called";
+    go(wa, 0, 0); if(!wait_done(wa, 3000)) return "interrupt() did not return";
+    const char* r2 = finish_round(true); if(!r) r = r2;
   } else if(kind == 'h' || kind == 'H' || kind == 'x') {
     long i = k;
     bool ok = kind != 'x' && tok[1] == 'o';
@@ -403,6 +423,14 @@ static const char* mt_round(const char* tok, long)
     if(!r && mt_abolished[0] > 0) r = "onAbolished for an establisher after its remove() had returned";
     if(!r && !ok && kind != 'x' && mt_abolished[1] != 1) r = "a failed lookup must end in exactly one onAbolished";
     if(!r && ok && mt_abolished[1] > 1) r = "onAbolished twice";
+    if(!r && ok && kind == 'h' && mt_abolished[1] == 0) {
+      // the lookup succeeded and run() has returned: the establisher must now be waiting for its connect
+      Socket::Poll::Private* pp = server->_p->_sockets.p;
+      HashMap<Socket*, Socket::Poll::Private::SocketInfo>::Iterator it = pp->sockets.find((Socket*)(SP::EstablisherImpl*)eh[i]);
+      if(it == pp->sockets.end()) r = "after a successful lookup the establisher is neither registered for its connect nor abolished";
+      else if((*it).events != Socket::Poll::connectFlag) r = "after a successful lookup the establisher is not registered for the connect event";
+      else if(((SP::EstablisherImpl*)eh[i])->resolver) r = "after a successful lookup the establisher still points to its resolver";
+    }
     if(ealive[i] && !(mt_abolished[1] > 0)) { server->remove(*eh[i]); }
     ealive[i] = false;
     if(!r && server->_p->_resolvers.size() != 0) r = "a finished resolver was not released";
@@ -436,9 +464,11 @@ static const char* mt_round(const char* tok, long)
   return r;
 }
 
+static void on_sigusr1(int) {}
 static void mt_op(vh::Tok& t)
 {
   slk_arm(0); mt_mode = 1;
+  struct sigaction sa; memset(&sa, 0, sizeof(sa)); sa.sa_handler = on_sigusr1; sigemptyset(&sa.sa_mask); sigaction(SIGUSR1, &sa, 0);
   Worker* ws[3] = {&wl, &wa, &wb};
   for(int k = 0; k < 3; ++k) { sem_init(&ws[k]->go, 0, 0); sem_init(&ws[k]->done, 0, 0); ws[k]->quit = 0; }
   pthread_create(&wl.th, 0, loop_main, 0); pthread_create(&wa.th, 0, intr_main, &wa); pthread_create(&wb.th, 0, intr_main, &wb);
